@@ -396,7 +396,7 @@ func TestEnumerated(t *testing.T) {
 
 func genBytes() *rapid.Generator[string] {
 	return rapid.OneOf(
-		rapid.SampledFrom([]string{"", "a", "abc123", `a"b`, `a\b`, `"`, `\`, "é", "a b", "W/x", "*", "a\nb", "\x00", "\x80\xff", "💥", `\"`, `'a'`, "a\tb", "\r\n", "<&>", "%41", "a?b#c", "+", ";"}),
+		rapid.SampledFrom([]string{"", "a", "abc123", `"quoted"`, `"a\"b"`, `a"b`, `a\b`, `"`, `\`, "é", "a b", "W/x", "*", "a\nb", "\x00", "\x80\xff", "💥", `\"`, `'a'`, "a\tb", "\r\n", "<&>", "%41", "a?b#c", "+", ";"}),
 		rapid.StringMatching(`[a-f0-9]{1,24}`),
 		rapid.StringMatching(`[a-z"\\ %#?&<>é\x00-\x1f\x7f-\xff]{0,10}`),
 		rapid.String(),
